@@ -65,7 +65,7 @@ static int c03_spy_scan_module(struct context_data *ctx, int ep, int chain)
 
 struct raw_env { unsigned flg; int npt, sus, sue, lps, lpe, n; int data[XMP_MAX_ENV_POINTS * 2]; };
 struct raw_pat { int present, rows, n; int *idx; };
-struct raw_ins { unsigned char name[32]; int vol, nsm, nsub; int *gvl; struct raw_env e[3]; int ne; };
+struct raw_ins { unsigned char name[32]; int vol, nsm, nsub; int *gvl; int *sid; struct raw_env e[3]; int ne; };
 struct raw_smp { unsigned char name[32]; int len, lps, lpe; unsigned flg; int hasdata, xsus, xsue; };
 
 struct raw_case {
@@ -90,7 +90,7 @@ static void free_case(void)
 	for (k = 0; k < cur.np; k++) free(cur.p[k].idx);
 	free(cur.p);
 	free(cur.trows);
-	for (k = 0; k < cur.ni; k++) free(cur.i[k].gvl);
+	for (k = 0; k < cur.ni; k++) { free(cur.i[k].gvl); free(cur.i[k].sid); }
 	free(cur.i);
 	free(cur.s);
 	free(cur.ev);
@@ -188,6 +188,16 @@ static void parse_line(char *line)
 		x->vol = next_int(&s); x->nsm = next_int(&s); x->nsub = next_int(&s);
 		x->gvl = (int *)calloc(x->nsub > 0 ? x->nsub : 1, sizeof(int));
 		for (k = 0; k < x->nsub; k++) x->gvl[k] = next_int(&s);
+	} else if (!strcmp(kw, "u")) {
+		if (cur.ni > 0) {
+			struct raw_ins *x = &cur.i[cur.ni - 1];
+			int n;
+			next_int(&s);
+			n = next_int(&s);
+			free(x->sid);
+			x->sid = (int *)calloc(x->nsub > 0 ? x->nsub : 1, sizeof(int));
+			for (k = 0; k < n && k < x->nsub; k++) x->sid[k] = next_int(&s);
+		}
 	} else if (!strcmp(kw, "e")) {
 		if (cur.ni > 0 && cur.i[cur.ni - 1].ne < 3) {
 			struct raw_ins *x = &cur.i[cur.ni - 1];
@@ -308,8 +318,10 @@ static int raw_load(struct module_data *m, HIO_HANDLE *f, const int start)
 		if (x->nsub >= 0) {
 			d->sub = (struct xmp_subinstrument *)calloc(x->nsub > 0 ? x->nsub : 1,
 								    sizeof(struct xmp_subinstrument));
-			for (j = 0; j < x->nsub; j++)
+			for (j = 0; j < x->nsub; j++) {
 				d->sub[j].gvl = x->gvl[j];
+				d->sub[j].sid = x->sid ? x->sid[j] : 0;
+			}
 			sub_alloc[k] = x->nsub;
 		}
 		put_env(&d->aei, &x->e[0]);
